@@ -3,6 +3,7 @@ package rhphost
 import (
 	"bytes"
 	"encoding/json"
+	"errors"
 	"os"
 	"fmt"
 	"math"
@@ -330,6 +331,20 @@ func (c *c09) attempt(cs c09Case, setup bool) error {
 	} else {
 		c.r.Count("failed_"+cs.Kind, 1)
 		c.r.Count("abort_"+outcome, 1)
+		if cs.Via == "honest" && cs.Cut == nil && !cs.Drained && cs.Variant == "" && c09WellFormed(cs, len(pre.State.Roots)) {
+			// an honest, complete, well-formed request failed
+			if cs.Kind == "roots" {
+				why := "error"
+				if errors.Is(out.err, rhp.ErrInvalidProof) {
+					why = "proof-rejected"
+				}
+				c.violation("listing-failed:"+why, "a range of the contract cannot be listed with a proof the honest client accepts: "+errText(out.err), cs,
+					map[string]any{"model": shortRoots(c.model), "host": shortRoots(post.State.Roots)})
+			} else {
+				c.r.Count("unexpected_failures", 1)
+				c.r.Inconclusive(fmt.Sprintf("honest well-formed %s failed: %v (case %+v)", cs.Kind, out.err, cs))
+			}
+		}
 		c.r.SetAdd("abort_points", cs.Kind+":"+outcome)
 		if !setup {
 			c.r.Distinct(fmt.Sprintf("%s:%s:n%d:%s:%s", cs.Kind, cs.Via, len(pre.State.Roots), outcome, caseShape(cs)))
@@ -385,6 +400,17 @@ func (c *c09) attempt(cs c09Case, setup bool) error {
 	c.lab.Mux.Forget(c.lab.Mux.Streams())
 	c.lab.Log.Trim(c.lab.Log.Seq())
 	return nil
+}
+
+// c09WellFormed reports whether the host is expected to accept the request.
+func c09WellFormed(cs c09Case, n int) bool {
+	switch cs.Kind {
+	case "free":
+		return validFree(n, effectiveIndices(cs))
+	case "roots":
+		return cs.Length > 0 && cs.Offset <= uint64(n) && cs.Length <= uint64(n)-cs.Offset
+	}
+	return true
 }
 
 func caseShape(cs c09Case) string {
@@ -819,13 +845,15 @@ func batches(maxLen int, fn func([]string)) {
 }
 
 // c09Cuts are the transport cut points tried on every multi-round RPC: the
-// start and the second byte of every run, plus offsets inside the longer
-// messages. A cut aimed beyond the end of a run fires at the start of the
-// next one, so every boundary is hit from both sides.
+// start and the second byte of every run, plus offsets inside the messages
+// (16/17: end of the RPC id; 64/65: last byte of / just beyond a signature
+// message). A cut aimed beyond the end of a run fires at the start of the next
+// one (or never, if the exchange ends first: that case is a plain success), so
+// every boundary is hit from both sides.
 func c09Cuts(runs int) []rhplab.Cut {
 	var out []rhplab.Cut
 	for run := 0; run < runs; run++ {
-		for _, b := range []int{0, 1, 20, 64} {
+		for _, b := range []int{0, 1, 16, 17, 40, 64, 65, 300} {
 			out = append(out, rhplab.Cut{Run: run, Bytes: b})
 		}
 	}
@@ -849,9 +877,9 @@ func c09Jobs(r *mon.Run) []c09Job {
 		orderedSelections(n, func(idx []uint64) {
 			list := ""
 			switch {
-			case n <= 4:
+			case n <= 5:
 				list = "all"
-			case i%8 == 0:
+			case i%16 == 0:
 				list = "all"
 			default:
 				list = "full"
@@ -875,8 +903,8 @@ func c09Jobs(r *mon.Run) []c09Job {
 				if validFree(n, idx) {
 					return
 				}
-				if len(idx) == tl && n >= 4 && (idx[0]+idx[1]*3+idx[2]*7)%3 != 0 {
-					return // thin the largest class deterministically
+				if len(idx) == 4 && (idx[0]+idx[1]*3+idx[2]*7+idx[3]*11)%4 != 0 {
+					return // thin the largest class deterministically (thorough only)
 				}
 				cases = append(cases, c09Case{Kind: "free", Via: "raw", N: n, Indices: idx})
 			})
@@ -931,9 +959,7 @@ func c09Jobs(r *mon.Run) []c09Job {
 				for _, cut := range c09Cuts(4) {
 					cut := cut
 					free = append(free, c09Case{Kind: "free", Via: "honest", N: n, Indices: normalise(idx), Cut: &cut})
-					if n <= 2 {
-						free = append(free, c09Case{Kind: "free", Via: "raw", N: n, Indices: idx, Cut: &cut})
-					}
+					free = append(free, c09Case{Kind: "free", Via: "raw", N: n, Indices: idx, Cut: &cut})
 				}
 				for _, v := range c09Variants {
 					free = append(free, c09Case{Kind: "free", Via: "raw", N: n, Indices: idx, Variant: v})
@@ -976,6 +1002,7 @@ func c09Jobs(r *mon.Run) []c09Job {
 		}
 		for _, pools := range []bool{false, true} {
 			for _, mixed := range []bool{false, true} {
+				other = append(other, c09Case{Kind: "replenish", Via: "honest", N: 2, Pools: pools, Mixed: mixed}, c09Case{Kind: "replenish", Via: "raw", N: 2, Pools: pools, Mixed: mixed})
 				for _, cut := range c09Cuts(4) {
 					cut := cut
 					other = append(other, c09Case{Kind: "replenish", Via: "honest", N: 2, Pools: pools, Mixed: mixed, Cut: &cut})
@@ -991,7 +1018,7 @@ func c09Jobs(r *mon.Run) []c09Job {
 
 	// F. PRNG sequences of appends and frees without resetting in between
 	{
-		nseq := r.Pick(24, 200)
+		nseq := r.Pick(64, 400)
 		per := 8
 		for j := 0; j*per < nseq; j++ {
 			rng := r.RNG(0x09F0 + uint64(j))
@@ -1061,6 +1088,8 @@ func runC09(r *mon.Run, replay string) {
 	r.Floor("sectors_read_back", 5)
 	r.Floor("unchanged_after_failure", 100)
 	r.Floor("concurrent_commits", 5)
+	r.Floor("success_replenish", 4)
+	r.Floor("committed_after_renter_gave_up", 10)
 	start := time.Now()
 	jobs := c09Jobs(r)
 	total := 0
